@@ -116,7 +116,10 @@ fn scenario(family: &str, nres: usize, advances: usize) -> Value {
     }
     let names: Vec<smol_str::SmolStr> = ["n", "m", "bad", "p0", "p1", "p2"].iter().map(|s| (*s).into()).collect();
     let shared = SharedGlobals::from_runtime(names, &runtimes[0]).expect("shared globals");
-    let clocks: Vec<ManualClock> = (0..nres).map(|_| ManualClock::new()).collect();
+    // family shared-clock: every resource sleeps on a clone of ONE clock, so a wake-up meant for
+    // one resource is seen by all sleepers
+    let shared_clock = ManualClock::new();
+    let clocks: Vec<ManualClock> = (0..nres).map(|_| if family == "shared-clock" { shared_clock.clone() } else { ManualClock::new() }).collect();
     let gate = Arc::new(StartGate::new());
     let mut handles = Vec::new();
     for (i, rt) in runtimes.into_iter().enumerate() {
@@ -145,6 +148,16 @@ fn scenario(family: &str, nres: usize, advances: usize) -> Value {
         true
     };
     match family {
+        "shared-clock" => {
+            // wait (visibly) until every resource sleeps, then stop them one by one without moving time
+            for i in 0..nres {
+                let mut polls = 0;
+                while clocks[i].sleep_calls() < nres as u64 && polls < 300 {
+                    polls += 1;
+                    verif_sync::yield_point("ctl.wait_all_asleep");
+                }
+            }
+        }
         "stop-advance" | "stop-settime" => {
             // like race-stop; the clocks keep moving after stop() (see below): time that passes
             // after a stop request must not make the resource miss it
@@ -418,6 +431,8 @@ pub fn run(ctx: &Ctx) -> EngineResult {
             Scn { family: "lost", resources: 2, advances: 1, bound: 2 },
             Scn { family: "race-stop", resources: 2, advances: 1, bound: 2 },
             Scn { family: "stop-advance", resources: 2, advances: 1, bound: 2 },
+            Scn { family: "shared-clock", resources: 2, advances: 1, bound: 1 },
+            Scn { family: "shared-clock", resources: 3, advances: 1, bound: 1 },
             Scn { family: "stop-settime", resources: 2, advances: 1, bound: 1 },
             Scn { family: "fault", resources: 2, advances: 1, bound: 2 },
             Scn { family: "stop-paused", resources: 2, advances: 1, bound: 2 },
@@ -431,6 +446,8 @@ pub fn run(ctx: &Ctx) -> EngineResult {
             Scn { family: "stop-advance", resources: 2, advances: 1, bound: 4 },
             Scn { family: "stop-settime", resources: 2, advances: 1, bound: 3 },
             Scn { family: "stop-advance", resources: 3, advances: 1, bound: 2 },
+            Scn { family: "shared-clock", resources: 2, advances: 1, bound: 3 },
+            Scn { family: "shared-clock", resources: 3, advances: 1, bound: 2 },
             Scn { family: "fault", resources: 2, advances: 2, bound: 3 },
             Scn { family: "stop-paused", resources: 2, advances: 1, bound: 4 },
             Scn { family: "gated", resources: 2, advances: 1, bound: 4 },
